@@ -19,6 +19,8 @@ import vplib
 import datafiles as D
 import C06
 import C08
+import tstone as T
+import tstone_ties
 
 OK_ERRNO = ("EBADMSG", "ENOPROTOOPT", "ENOMEM")
 MAX_PORTS = 40
@@ -308,6 +310,9 @@ def evaluate(kind, label, name, text, lines):
                 big = max(abs(x) for x in m1)
                 small = min(abs(x) for x in m1)
                 moderate = big < 1e3 * max(R, 1 / R, 1) and small > 1e-3 * min(R, 1 / R, 1)
+                # the Touchstone 1 writer normalises through S ((Z - z0) / (Z + z0) and back): magnitudes near the ends
+                # of the binary64 range overflow / underflow there, which is not a loss "to rounding" of moderate data
+                moderate = moderate and 1e-100 < R < 1e100 and big < 1e100 and small > 1e-100
                 if moderate and D.mat_relerr(m1, m2) > 1e-6:
                     return ({"kind": "resave_changes_content", "loader": fam, "class": "value"},
                             "re-saved (normalised) and re-loaded values differ: %r vs %r" % (m1, m2))
@@ -400,6 +405,11 @@ def run(ctx):
         inputs.append(("r%d" % r, "random", "random-bytes", rng.choice(["x.npd", "x.ts", "x.s2p", "x.s4p"]), t))
     for lab, name, text in directed():
         inputs.append(("d-" + lab, "directed", lab, name, text))
+    # words, numbers and [keyword] texts of every length around the sizes of the scanner's text buffer (64, 128, 256):
+    # through the whole loader under ASan here, and token by token against the model below (tok_buffer_no_overflow)
+    longtok = tstone_ties.long_token_inputs(rng, ctx.tier)
+    for lab, name, text in longtok:
+        inputs.append(("L-" + lab, "directed", "long-token", name, text))
     cases = [(cid, case_cmds(name, text)) for cid, kind, lab, name, text in inputs]
     results, faults = H.run(cases, timeout=240 if ctx.tier == "quick" else 900)
     byid = dict((x[0], x) for x in inputs)
@@ -450,4 +460,28 @@ def run(ctx):
     unknown = [k for k in classes if vplib.match_known(ctx.prop, dict(k), known) is None]
     ctx.obligation("tie:data_loaders_total", not unknown and not faults,
                    "%d violation classes (%d known findings), %d faults" % (len(classes), len(classes) - len(unknown), len(faults)))
+    model_ties(ctx, inputs, results)
     return inputs
+
+
+def model_ties(ctx, inputs, results):
+    """The byte-level models behind Properties_C09.v (coq/Files/TsTok.v, TsParse.v, NpdLoad.v), extracted, against the C code
+    on the inputs of this run: outcome / errno class / loaded object of every input (tie:loader_model), the token streams
+    and the text-buffer allocation of next_token (tie:tokenizer_model) and the field lists of scan_line
+    (tie:npd_scanner_model) on the long-token inputs and on a sample of the mutated ones."""
+    M = tstone_ties.models(ctx)
+    quick = ctx.tier == "quick"
+    tstone_ties.tie_loads(ctx, M, [(cid, name, text) for cid, kind, lab, name, text in inputs], results, "mutations",
+                          timeout=600 if quick else 2400)
+    ts = [(cid, text) for cid, kind, lab, name, text in inputs if T.is_touchstone_name(name)]
+    npd = [(cid, text) for cid, kind, lab, name, text in inputs if not T.is_touchstone_name(name)]
+    lt = [x for x in ts if x[0].startswith("L-")]
+    rest = [x for x in ts if not x[0].startswith("L-")]
+    ctx.rng.shuffle(rest)
+    ctx.rng.shuffle(npd)
+    nts, nnpd = (700, 500) if quick else (6000, 4000)
+    flagsets = [(0,), (4,), (2,), (1,), (0, 4), (6,), (5,)]
+    # the long tokens with every flag set that changes how a word is converted; the others with one or two of them
+    tstone_ties.tie_tokens(ctx, M, lt, "long-tokens", flagsets=(0, 1, 2))
+    tstone_ties.tie_tokens(ctx, M, rest[:nts], "mutations", pick=lambda cid: flagsets[sum(map(ord, cid)) % len(flagsets)])
+    tstone_ties.tie_npd_scan(ctx, M, npd[:nnpd], "mutations")
